@@ -28,7 +28,7 @@ Init == /\ l = 2
         /\ Rec[1].ev = "reset"
         /\ st = InitState(CfgOf(Rec[1]))
         /\ hm = NoMap
-        /\ TLCSet(1, 2) /\ TLCSet(2, InitState(CfgOf(Rec[1])))
+        /\ TLCSet(1, 2) /\ TLCSet(2, InitState(CfgOf(Rec[1]))) /\ TLCSet(3, {})
 
 R == Rec[l]
 Is(ev) == l <= Len(Rec) /\ R.ev = ev /\ l' = l + 1
@@ -244,10 +244,11 @@ DoneResolved ==
      /\ \A h \in DOMAIN st.hnd[e] : st.hnd[e][h].st # "dropped" => st.hnd[e][h].closedW /\ ~SenderAlive(st, e, h)
 
 (* progress register: the furthest line matched so far (workers 1) *)
-Track == IF TLCGet(1) < l THEN TLCSet(1, l) /\ TLCSet(2, st) ELSE TRUE
+Track == /\ IF TLCGet(1) < l THEN TLCSet(1, l) /\ TLCSet(2, st) ELSE TRUE
+         /\ IF st.kf \subseteq TLCGet(3) THEN TRUE ELSE TLCSet(3, TLCGet(3) \cup st.kf)
 
 Accepted ==
-  \/ TLCGet(1) = Len(Rec) + 1
+  \/ TLCGet(1) = Len(Rec) + 1 /\ PrintT(<<"KF", TLCGet(3)>>)
   \/ /\ PrintT(<<"REJECTED at line", TLCGet(1), "of", Len(Rec)>>)
      /\ (TLCGet(1) <= Len(Rec) => PrintT(<<"UNMATCHED", ToJson(Rec[TLCGet(1)])>>))
      /\ PrintT(<<"LASTSTATE", ToJson(TLCGet(2))>>)
